@@ -1,5 +1,9 @@
 #![allow(dead_code)]
 use parity_scale_codec::{Compact, Decode, Encode};
-#[derive(parity_scale_codec::CompactAs)]
-pub struct T { a: u32, b: u8 }
+#[derive(Encode, Decode)]
+pub enum T {
+	#[codec(skip)] V0,
+	#[codec(index = 256)] V1,
+	#[codec(skip)] V2,
+}
 fn main() {}
